@@ -206,6 +206,14 @@ func partAConfigs(tier string) []bfsRun {
 		{bCfg{Name: "archival-parked-put-race", Archival: true, Blocks: []vBlockSpec{{Height: 1, TC: tcOut, Content: cBlob}, {Height: 2, TC: tcIn, Content: cTx}},
 			Sources: []string{"A"}, FetchAns: []string{"blk"}, SyncAns: []string{"synced", "err"}, Avail: true, GetAns: []string{"eds", "notfound"},
 			Pauses: []string{"ods-write", "link"}}, 16},
+		{bCfg{Name: "pruned-same-payload-two-heights", Blocks: []vBlockSpec{{Height: 1, TC: tcIn, Content: cBlob, Salt: 77}, {Height: 2, TC: tcIn, Content: cBlob, Salt: 77}},
+			Sources: []string{"A"}, FetchAns: []string{"blk", "err"}, SyncAns: []string{"synced", "err"}, Avail: true, GetAns: []string{"eds", "notfound"},
+			Faults: []string{"link", "ods-write"}, RmFaults: []string{"rm-ods"}}, 18},
+		{bCfg{Name: "pruned-crash-leftovers", Blocks: []vBlockSpec{{Height: 1, TC: tcIn, Content: cBlob, Leftover: "nolink"}, {Height: 2, TC: tcIn, Content: cTxBlob, Leftover: "trunc"}, {Height: 3, TC: tcIn, Content: cTx, Leftover: "trunc0"}},
+			Sources: []string{"A"}, FetchAns: []string{"blk", "err"}, SyncAns: []string{"synced"}, Avail: true, GetAns: []string{"eds", "notfound"}, Stop: true}, 18},
+		{bCfg{Name: "archival-crash-leftovers-cleanup-fails", Archival: true, Blocks: []vBlockSpec{{Height: 1, TC: tcOut, Content: cBlob, Leftover: "trunc"}, {Height: 2, TC: tcIn, Content: cTx}},
+			Sources: []string{"A"}, FetchAns: []string{"blk"}, SyncAns: []string{"synced"}, Avail: true, GetAns: []string{"eds", "notfound"},
+			Faults: []string{"link", "ods-write"}, RmFaults: []string{"rm-ods", "rm-q4", "rm-link"}}, 18},
 		{bCfg{Name: "pruned-restart", Blocks: []vBlockSpec{{Height: 1, TC: tcIn, Content: cBlob}, {Height: 2, TC: tcIn, Content: cEmpty}, {Height: 3, TC: tcIn, Content: cBlob, Unbuildable: true}},
 			Sources: ab, Queue: 1, FetchAns: []string{"blk", "err"}, SyncAns: []string{"synced", "err"}, Stop: true}, 14},
 		{bCfg{Name: "pruned-window-edge", Blocks: []vBlockSpec{{Height: 1, TC: tcEdge, Content: cBlob}, {Height: 2, TC: tcIn, Content: cTx}},
@@ -220,6 +228,12 @@ func partAConfigs(tier string) []bfsRun {
 	th := []bfsRun{
 		{bCfg{Name: "T-archival-window-edge", Archival: true, Blocks: []vBlockSpec{{Height: 1, TC: tcEdge, Content: cBlob}, {Height: 2, TC: tcOut, Content: cTx}},
 			Sources: ab, Queue: 1, FetchAns: []string{"blk", "timeout"}, SyncAns: []string{"synced", "slow", "err"}, Avail: true, GetAns: []string{"eds", "notfound"}, Stop: true}, 18},
+		{bCfg{Name: "T-archival-same-payload-two-heights", Archival: true, Blocks: []vBlockSpec{{Height: 1, TC: tcOut, Content: cTxBlob, Salt: 78}, {Height: 2, TC: tcOut, Content: cTxBlob, Salt: 78}, {Height: 3, TC: tcOut, Content: cEmpty}},
+			Sources: ab, Queue: 1, FetchAns: []string{"blk", "err"}, SyncAns: []string{"synced", "err"}, Avail: true, GetAns: []string{"eds", "notfound"},
+			Faults: []string{"link", "ods-create", "ods-write"}, RmFaults: []string{"rm-ods", "rm-link"}, Stop: true}, 18},
+		{bCfg{Name: "T-pruned-leftovers-faults-restart", Blocks: []vBlockSpec{{Height: 1, TC: tcIn, Content: cBlob, Leftover: "nolink", Salt: 79}, {Height: 2, TC: tcIn, Content: cBlob, Leftover: "trunc", Salt: 79}, {Height: 3, TC: tcIn, Content: cBig, Leftover: "trunc0"}},
+			Sources: ab, Queue: 1, FetchAns: []string{"blk", "err"}, SyncAns: []string{"synced", "err"}, Avail: true, GetAns: []string{"eds", "notfound"},
+			Faults: []string{"link", "q4-create"}, RmFaults: []string{"rm-ods", "rm-q4"}, Stop: true}, 18},
 		{bCfg{Name: "T-pruned-3src-q2", Blocks: []vBlockSpec{{Height: 1, TC: tcOut, Content: cBlob}, {Height: 2, TC: tcIn, Content: cTxBlob}, {Height: 3, TC: tcIn, Content: cEmpty}},
 			Sources: abc, Queue: 2, FetchAns: []string{"blk", "err", "timeout"}, SyncAns: []string{"synced", "syncing", "err", "timeout"}, Tick: true}, 18},
 		{bCfg{Name: "T-archival-2src-4h", Archival: true, Blocks: []vBlockSpec{{Height: 1, TC: tcOut, Content: cBlob}, {Height: 2, TC: tcOut, Content: cEmpty}, {Height: 3, TC: tcIn, Content: cTx}, {Height: 4, TC: tcOut, Content: cBig}},
@@ -268,6 +282,28 @@ func partBScripts(tier string) (scripts []bScript, contents int) {
 						cfg.Name = "B-unbuildable"
 						scripts = append(scripts, bScript{cfg, steps})
 					}
+				}
+			}
+		}
+	}
+	// the same non-empty payload (same data hash) at two heights, and crash leftovers, through
+	// the listener
+	for _, c := range cs {
+		if c.isEmpty() {
+			continue
+		}
+		for _, arch := range []bool{false, true} {
+			for _, tc := range []string{tcIn, tcOut} {
+				if tc == tcOut && !arch {
+					continue
+				}
+				cfg := bCfg{Name: "B-same-payload", Archival: arch, Blocks: []vBlockSpec{{Height: 1, TC: tc, Content: c, Salt: 91}, {Height: 2, TC: tc, Content: c, Salt: 91}},
+					Sources: []string{"A", "B"}, FetchAns: []string{"blk"}, SyncAns: []string{"synced"}, Stop: true}
+				scripts = append(scripts, bScript{cfg, []string{"ann:1:A", "auto", "ann:2:A", "auto", "ann:1:B", "auto", "stop", "start", "ann:2:B", "auto", "ann:1:A", "auto"}})
+				for _, lo := range []string{"nolink", "trunc", "trunc0"} {
+					cfg := bCfg{Name: "B-leftover", Archival: arch, Blocks: []vBlockSpec{{Height: 1, TC: tc, Content: c, Leftover: lo}},
+						Sources: []string{"A", "B"}, FetchAns: []string{"blk"}, SyncAns: []string{"synced"}, Stop: true}
+					scripts = append(scripts, bScript{cfg, []string{"ann:1:A", "auto", "stop", "start", "ann:1:B", "auto"}})
 				}
 			}
 		}
@@ -323,7 +359,7 @@ func partCScripts(tier string) (scripts []bScript, layouts int) {
 		for _, arch := range []bool{false, true} {
 			for _, tc := range []string{tcIn, tcOut} {
 				cfg := bCfg{Name: "C-avail", Archival: arch, Blocks: []vBlockSpec{{Height: 1, TC: tc, Layout: name}},
-					Sources: []string{"A"}, Avail: true, GetAns: allGet, Faults: allFaults, Pauses: allFaults}
+					Sources: []string{"A"}, Avail: true, GetAns: allGet, Faults: allFaults, Pauses: allFaults, RmFaults: []string{"rm-ods", "rm-q4", "rm-link"}}
 				add := func(steps ...string) { scripts = append(scripts, bScript{cfg, steps}) }
 				if reps[name] {
 					for _, a1 := range allGet {
@@ -338,6 +374,27 @@ func partCScripts(tier string) (scripts []bScript, layouts int) {
 				}
 				for _, f := range allFaults {
 					add("fault:"+f, "avail:1", "get:eds?", "avail:1", "get:eds?")
+				}
+				if name != "w1:TAIL1" {
+					// the same square at a second height; start states left by a crashed put; a
+					// failed put whose clean-up cannot remove the hash-named file
+					two := cfg
+					two.Name = "C-same-payload"
+					two.Blocks = []vBlockSpec{{Height: 1, TC: tc, Layout: name, Salt: 5}, {Height: 2, TC: tc, Layout: name, Salt: 5}}
+					scripts = append(scripts, bScript{two, []string{"avail:1", "get:eds?", "avail:2", "get:eds?", "avail:2", "get:eds?", "avail:1", "get:eds?"}})
+					scripts = append(scripts, bScript{two, []string{"avail:1", "get:eds?", "avail:2", "get:notfound?", "avail:2", "get:eds?"}})
+					for _, lo := range []string{"nolink", "trunc", "trunc0"} {
+						l := cfg
+						l.Name = "C-leftover"
+						l.Blocks = []vBlockSpec{{Height: 1, TC: tc, Layout: name, Leftover: lo}}
+						scripts = append(scripts, bScript{l, []string{"avail:1", "get:eds?", "avail:1", "get:eds?"}})
+						scripts = append(scripts, bScript{l, []string{"avail:1", "get:notfound?", "avail:1", "get:eds?"}})
+					}
+					for _, f := range []string{"link", "ods-write", "q4-write"} {
+						for _, r := range []string{"rm-ods", "rm-q4", "rm-link"} {
+							add("fault:"+f, "fault:"+r, "avail:1", "get:eds?", "avail:1", "get:eds?")
+						}
+					}
 				}
 				if reps[name] {
 					// the put parked at every effect, then released either way
@@ -420,7 +477,7 @@ func TestVerifC15(t *testing.T) {
 		"consensus endpoints serve the same block for the same height; only consistent blocks are required to hash to their data hash (one inconsistent block is explored for the stored==published clause only)",
 		"the getter returns the square committed to by the header it was asked for, or an error (getter soundness is C06)",
 		"a collaborator call started with a finished context fails at once with the context error",
-		"store faults: one effect (hard link, symlink, ODS/Q4 file creation, ODS/Q4 buffered write) fails once; clean-up effects do not fail; no crash cuts (C07)",
+		"store faults: one effect (hard link, symlink, ODS/Q4 file creation, ODS/Q4 buffered write) fails once, and in addition one removal of an existing hash-named file may fail once; crash leftovers (no height link / torn ODS file) are start states, crash cuts are C07",
 		"the boundary of the window (a block that leaves the window while it is being ingested) is explored but its storage is not constrained",
 		"'published' = handed to the header broadcaster; 'reported' = the listener's per-event outcome counter / the error returned by SharesAvailable",
 		"the listener handles one announcement at a time (the harness cannot drive overlapping ingests and reports them as an infrastructure error)",
@@ -539,6 +596,7 @@ func TestVerifC15(t *testing.T) {
 	o := out.sorted()
 	rep.Set("observed_outcomes", o)
 	rep.Set("distinct_observed_outcomes", len(o))
+	rep.Set("store_removal_fault_point_active", o["store-effect:rm-ods"] > 0)
 	rep.Set("positive_controls", map[string]any{
 		"published_headers_passing_header.Validate": o["published-header-validates"],
 		"consensus_ingests_reported_processed":      o["listener:processed"],
